@@ -1,0 +1,19 @@
+//go:build verif
+
+// Contracts for package cmd, checked by /verif (govc). Comment-only; compiled only under -tags verif.
+package cmd
+
+//@ func scrtmMain
+//@   assigns nothing
+//@   modifies pbsrc, pbok
+//@   ghostset scrtmOK = result0
+//@   ghostset scrtmVer = result1
+
+// C06: the SVN read from the image's side file reaches every requested technology section.
+//@ func (*endorseCommand).PersistentPreRunE
+//@   requires f != nil && cmd != nil
+//@   modifies *
+//@   ensures[C06] err == nil && scrtmOK && f.AddSnp ==> exists(e, *endorse.Context, e != nil && e.SevSnp != nil && e.SevSnp.Svn == scrtmVer, ec)
+//@   ensures[C06] err == nil && scrtmOK && f.AddTdx ==> exists(e, *endorse.Context, e != nil && e.Tdx != nil && e.Tdx.Svn == scrtmVer, ec)
+//@   ensures[C06] err == nil && !f.AddSnp ==> exists(e, *endorse.Context, e != nil && e.SevSnp == nil, ec)
+//@   ensures[C06] err == nil && !f.AddTdx ==> exists(e, *endorse.Context, e != nil && e.Tdx == nil, ec)
